@@ -59,6 +59,8 @@ AttrsOf(w, S, n) == CASE w = "A" -> AAttrs(S, n) [] w = "E" -> EAttrs(S, n) [] w
 HasContentOf(w, S, n) == CASE w = "A" -> AHasContent(S, n) [] w = "E" -> EHasContent(S, n) [] w = "D" -> DHasContent(S, n)
 AbsOf(w, S, n) == CASE w = "A" -> AbsA(S, n) [] w = "E" -> AbsE(S, n) [] w = "D" -> AbsD(S, n)
 InitOf(w) == CASE w = "A" -> AInit [] w = "E" -> EInit [] w = "D" -> DInit
+\* TreeBuilder.reset() at the start of every parse of a (re)used parser: the abstract tree starts empty
+ResetOf(w, S) == CASE w = "A" -> AInit [] w = "E" -> EReset(S) [] w = "D" -> DReset(S)
 RECURSIVE PrimAll(_, _, _)
 PrimAll(w, S, cs) == IF cs = <<>> THEN S ELSE PrimAll(w, Prim(w, S, cs[1]), Tail(cs))
 
@@ -148,6 +150,11 @@ StoreStep(w, S, cl, op) ==
       [] op.t = "comment" -> LET par == CASE op.where = "doc" -> 1 [] op.where = "root" -> cl.open[1] [] OTHER -> Cur(cl) IN
                              Prim(w, Prim(w, S, NewCall(cl.next, "comment", "", <<>>, op.d, None, None)), Call("append", par, cl.next, 0, <<>>))
       [] op.t = "pop"     -> S
+      [] op.t = "doctype" -> LET pq == IF op.where = "ids" THEN op.d ELSE None IN                    \* insertDoctype (prologue)
+                             Prim(w, Prim(w, S, NewCall(cl.next, "doctype", "", op.n, <<>>, pq, pq)), Call("append", 1, cl.next, 0, <<>>))
+      [] op.t = "root"    -> PrimAll(w, S, <<NewCall(cl.next, "elem", op.ns, N_html, <<>>, None, None), AttrsCall(cl.next, <<>>),   \* insertRoot
+                                             Call("append", 1, cl.next, 0, <<>>)>>)
+      [] op.t = "reset"   -> ResetOf(w, S)                                                         \* the parse is abandoned / finished; next parse
       [] op.t = "detach"  -> DetachViaParent(w, S, cl.open[2])                             \* startTagFrameset: body removed
       [] op.t = "adopt"   -> AdoptRun(w, S, cl, op).S
       [] op.t = "frag"    -> Prim(w, Prim(w, S, NewCall(cl.next, "frag", "", <<>>, <<>>, None, None)),     \* getFragment
@@ -166,6 +173,9 @@ ClientStep(cl, op) ==
     CASE op.t = "elem"    -> [cl EXCEPT !.open = Append(@, cl.next), !.nm = Append(@, op.n), !.next = @ + 1]
       [] op.t = "comment" -> [cl EXCEPT !.nm = Append(@, <<>>), !.next = @ + 1]
       [] op.t = "pop"     -> [cl EXCEPT !.open = Front(@)]
+      [] op.t = "doctype" -> [cl EXCEPT !.nm = Append(@, <<>>), !.next = @ + 1]
+      [] op.t = "root"    -> [cl EXCEPT !.open = <<cl.next>>, !.nm = Append(@, N_html), !.next = @ + 1]
+      [] op.t = "reset"   -> [open |-> <<>>, nm |-> <<<<>>>>, next |-> 2, frag |-> 0]
       [] op.t = "detach"  -> [cl EXCEPT !.open = <<cl.open[1]>>]
       [] op.t = "adopt"   -> LET r == AdoptStack(cl, op) IN [cl EXCEPT !.open = r.open, !.next = r.next, !.nm = @ \o r.names]
       [] op.t = "frag"    -> [cl EXCEPT !.nm = Append(@, <<>>), !.next = @ + 1, !.frag = cl.next]
@@ -174,6 +184,7 @@ ClientStep(cl, op) ==
 
 \* the state every parse starts from: Document (id 1) and the root html element (id 2) on the stack
 RootNs(nsOn) == IF nsOn THEN "html" ELSE "none"
+ClientInit0 == [open |-> <<>>, nm |-> <<<<>>>>, next |-> 2, frag |-> 0]      \* right after reset(): only the Document exists
 ClientInit == [open |-> <<2>>, nm |-> <<<<>>, N_html>>, next |-> 3, frag |-> 0]
 StoreInit(w, nsOn) == PrimAll(w, InitOf(w), <<NewCall(2, "elem", RootNs(nsOn), N_html, <<>>, None, None), AttrsCall(2, <<>>),
                                               Call("append", 1, 2, 0, <<>>)>>)
